@@ -230,12 +230,23 @@ class PathCond(Domain):
                         envd['@' + tgt.id] = ('alias', src)
                 elif isinstance(v, ast.Constant) and v.value is None:
                     pc = f_and(pc, ('atom', f'{tgt.id} is None'))
-                elif isinstance(v, (ast.Tuple, ast.List, ast.Dict, ast.Set, ast.JoinedStr, ast.Constant)):
-                    pc = f_and(pc, f_not(('atom', f'{tgt.id} is None')))      # a display is never None
+                facts = frozenset(x for x in facts if x != f'notnone:{tgt.id}')
+                if isinstance(v, (ast.Tuple, ast.List, ast.Dict, ast.Set, ast.JoinedStr)) or (
+                        isinstance(v, ast.Constant) and v.value is not None):
+                    facts = facts | {f'notnone:{tgt.id}'}       # a display is never None (decides `x is None`)
         elif isinstance(st, (ast.AugAssign,)) and isinstance(st.target, ast.Name):
+            facts = frozenset(x for x in facts if x != f'notnone:{st.target.id}')
             envd.pop(st.target.id, None)
             envd = {k: f for k, f in envd.items() if st.target.id not in _names_in(f)}
             pc = _weaken(pc, st.target.id)
+        if isinstance(st, (ast.Assign, ast.AnnAssign, ast.For, ast.With)) and any(x.startswith('notnone:') for x in facts):
+            tg = st.targets if isinstance(st, ast.Assign) else (
+                [st.target] if isinstance(st, (ast.AnnAssign, ast.For)) else
+                [i.optional_vars for i in st.items if i.optional_vars is not None])
+            stored = {x.id for t in tg if not isinstance(t, ast.Name) for x in ast.walk(t) if isinstance(x, ast.Name)}
+            if isinstance(st, (ast.For, ast.With)):
+                stored |= {x.id for t in tg for x in ast.walk(t) if isinstance(x, ast.Name)}
+            facts = frozenset(x for x in facts if not (x.startswith('notnone:') and x[8:] in stored))
         if self.gen is not None:
             facts = facts | frozenset(self.gen(st))
         if self.upd is not None:
@@ -244,6 +255,12 @@ class PathCond(Domain):
 
     def assume(self, test, s, truth):
         pc, env, facts = s
+        if isinstance(test, ast.Compare) and len(test.ops) == 1 and isinstance(test.left, ast.Name) \
+                and isinstance(test.ops[0], (ast.Is, ast.IsNot)) and isinstance(test.comparators[0], ast.Constant) \
+                and test.comparators[0].value is None and f'notnone:{test.left.id}' in facts:
+            if isinstance(test.ops[0], ast.Is) == truth:
+                return None                 # the name holds a tuple / list / dict / string display here
+            return s
         if self.decide is not None:
             known = self.decide(test, facts)
             if known is not None and known != truth:
@@ -257,6 +274,9 @@ class PathCond(Domain):
         return (new, env, facts)
 
     def bind(self, target, s, source=None):
+        stored = {x.id for x in ast.walk(target) if isinstance(x, ast.Name)}
+        if any(x.startswith('notnone:') and x[8:] in stored for x in s[2]):
+            return (s[0], s[1], frozenset(x for x in s[2] if not (x.startswith('notnone:') and x[8:] in stored)))
         return s
 
 
